@@ -326,6 +326,9 @@ func (r *deserContext) decodeBinary() Item {
 		return NewBool(b)
 	case IntegerT:
 		data := r.ReadVarBytes(bigint.MaxBytesLen)
+		if r.Err != nil {
+			return nil
+		}
 		num := bigint.FromBytes(data)
 		return NewBigInteger(num)
 	case ArrayT, StructT:
